@@ -136,6 +136,8 @@ def mon_conn(ops, impl):
             out.append((i, f"mon_cn reset {slots[int(w[1])]} {_f(a, 'cb=') if _f(a, 'cb=') != '-' else 0}"))
         if w[0] == "cn_target":
             out.append((i, "mon_cn target " + w[1]))
+        if w[0] == "cn_note" and len(w) == 4 and w[1] == "c09":
+            out.append((i, "mon_cn verdict" if w[2] == "verdict" else f"mon_cn expect {w[2]} {w[3]}"))
         # C13: what the receive API handed to the application
         if w[0] in ("cn_resp", "cn_accept") and r.startswith("ok:"):
             sid = slots[int(w[1])] if w[0] == "cn_resp" and int(w[1]) < len(slots) else (slots[-1] if slots else 0)
